@@ -88,10 +88,14 @@ static void e_apply(void *obj,int b,const opdef *op,obs_t *o){
    if (op->type==OP_IO){
       int fsz=(int)((long)e->fs*op->b/10000), n; int idx=(int)(op-OPS);
       unsigned char *out=malloc(g_outcap);                 /* exact-size heap block: ASan redzones on both sides */
-      if (g_kid==KE_ENC) n=opus_encode(obj,g_pcm[b][idx],fsz,out,g_outcap);
-      else if (g_kid==KE_PROJ) n=opus_projection_encode(obj,g_pcm[b][idx],fsz,out,g_outcap);
-      else n=opus_multistream_encode(obj,g_pcm[b][idx],fsz,out,g_outcap);
-      o->ret=n; if(n>0){ check_out_init(out,n,"packet"); o->outlen=n; o->outh=mc_hash(out,n,5); }
+      int rep=op->c>1?op->c:1, k; uint64_t hh=0; int tot=0;      /* op->c > 1: a RUN of that many identical frames (one alphabet element, e.g. 240 ms of digital silence) */
+      for(k=0;k<rep;k++){
+         if (g_kid==KE_ENC) n=opus_encode(obj,g_pcm[b][idx],fsz,out,g_outcap);
+         else if (g_kid==KE_PROJ) n=opus_projection_encode(obj,g_pcm[b][idx],fsz,out,g_outcap);
+         else n=opus_multistream_encode(obj,g_pcm[b][idx],fsz,out,g_outcap);
+         if(n<=0) break;
+         check_out_init(out,n,"packet"); tot+=n; hh= rep>1? mc_mix(hh,mc_hash(out,n,5+k)) : mc_hash(out,n,5); }
+      o->ret=n; if(n>0){ o->outlen=tot; o->outh=hh; }
       free(out);
    } else if (op->type==OP_SET){
       int r=e_ctl_i(obj,op->a,op->b); if (r==OPUS_OK && op->c) r=e_ctl_i(obj,op->c,op->d); o->ret=r;
@@ -189,6 +193,7 @@ int main(int argc,char **argv){
       add_op("ctl(LSB_DEPTH=12)",OP_SET,OPUS_SET_LSB_DEPTH_REQUEST,12,0,0);
       add_op("ctl(VBR_CONSTRAINT=0)",OP_SET,OPUS_SET_VBR_CONSTRAINT_REQUEST,0,0,0);
    }
+   if (alpha>=0){ char nm[64]; snprintf(nm,sizeof nm,"encode(silence,12 x 20 ms)"); add_op(nm,OP_IO,SIG_SILENCE,200,12,0); }   /* long enough for every hangover / no-activity counter to run out */
    add_op("ctl(OPUS_RESET_STATE)",OP_RESET,0,0,0,0);
    if (alpha<0){ /* tiny alphabet for the deepest bound */
       NOPS=0; add_enc(SIG_SPEECH,200); add_enc(SIG_SILENCE,200); add_enc(SIG_MULTITONE,100); add_enc(SIG_NOISE,600);
